@@ -1099,6 +1099,10 @@ def check_nonint(ctx: Ctx, options: tuple[str, ...]) -> None:
                     break
         tests = [n for n in touched if n.kind == "test"]
         others = [n for n in touched if n.kind != "test"]
+        # a plain copy of the option into a local (`x = opt`) is the option under another name: what x influences is in
+        # `touched` as well, the copy itself does nothing
+        others = [n for n in others if not (n.kind == "stmt" and isinstance(n.ast, ast.Assign) and len(n.ast.targets) == 1 and isinstance(n.ast.targets[0], ast.Name)
+                                            and isinstance(n.ast.value, ast.Name) and origins(prog, fm, n.ast.value, n) == frozenset({("param", opt)}))]
         ok = len(tests) == 1 and origins(prog, fm, tests[0].ast, tests[0]) == frozenset({("param", opt)}) and len(others) == 1 \
             and others[0].kind == "stmt" and isinstance(others[0].ast, ast.Expr) and isinstance(others[0].ast.value, ast.Call)
         ctx.ob("R-NONINT", f"{fm.qual} :: `{opt}` influences only its consumer call", ok,
